@@ -155,19 +155,74 @@ def all_dags(pdag: Arr2) -> Arr3:
     fresh(result)
 
 
+@spec
+def chain_rooted(p, r, a, b):
+    """entry (a, b) of the path 0 - 1 - ... - (p-1) oriented away from node r"""
+    return 1.0 if ((b == a - 1 and 1 <= a and a <= r) or (b == a + 1 and r <= a and a <= p - 2)) else 0.0
+
+
 @contract("sempler.utils.chain_graph_MEC")
 def chain_graph_MEC(p: Int) -> Arr3:
     requires(p >= 1)
-    ensures(enumerates_mec(result, array_of(p, p, lambda i, j: 1.0 if j == i + 1 else 0.0)))
+    # proved: the p orientations of the path away from a single root, root r at position r
+    ensures(result.shape[0] == p and result.shape[1] == p and result.shape[2] == p,
+            all(result[r, a, b] == chain_rooted(p, r, a, b) for r in range(p) for a in range(p) for b in range(p)))
+    # L-CHAIN (cited; decided by the bounded harness): the Markov equivalence class of a directed path is exactly its single-root orientations
+    let(chain=array_of(p, p, lambda i, j: 1.0 if j == i + 1 else 0.0))
+    hint(implies(all(result[r, a, b] == chain_rooted(p, r, a, b) for r in range(p) for a in range(p) for b in range(p)),
+                 enumerates_mec(result, chain)), at='return')
+    ensures(enumerates_mec(result, chain))
     fresh(result)
+
+
+@invariant("sempler.utils.chain_graph_MEC", loop=1)
+def _cg_roots(MEC, p):
+    declare(MEC=ListOf(Arr2))
+    holds(len(MEC) == _k1,
+          all(len(MEC[r].shape) == 2 and MEC[r].shape[0] == p and MEC[r].shape[1] == p for r in range(_k1)),
+          all(MEC[r][a, b] == chain_rooted(p, r, a, b) for r in range(_k1) for a in range(p) for b in range(p)))
+
+
+@invariant("sempler.utils.chain_graph_MEC", loop=2)
+def _cg_back(A, i, p):
+    holds(A.shape[0] == p and A.shape[1] == p,
+          all(A[a, b] == (1.0 if (b == a - 1 and i - _k2 < a and a <= i and 1 <= a) else 0.0) for a in range(p) for b in range(p)))
+
+
+@invariant("sempler.utils.chain_graph_MEC", loop=3)
+def _cg_fwd(A, i, p):
+    holds(A.shape[0] == p and A.shape[1] == p,
+          all(A[a, b] == (1.0 if ((b == a - 1 and 1 <= a and a <= i) or (b == a + 1 and i <= a and a < i + _k3)) else 0.0)
+              for a in range(p) for b in range(p)))
+
+
+@spec
+def keeps_root(A, I, r):
+    """the orientation of the path away from r has the same parents as A at every target"""
+    return all(chain_rooted(len(A), r, a, t) == A[a, t] for a in range(len(A)) for t in I)
 
 
 @contract("sempler.utils.chain_graph_IMEC")
 def chain_graph_IMEC(A: Arr2, I: SetOf(Int)) -> Arr3:
     requires(square(A), len(A) >= 1, all(node(i, A) for i in I))
     raises(ValueError, when=not all(A[i, j] == (1 if j == i + 1 else 0) for i in range(len(A)) for j in range(len(A))))
+    # proved: exactly the single-root orientations that agree with A on the columns of the targets, in increasing root order
+    ensures(result.shape[0] == count(len(A), lambda r: keeps_root(A, I, r)), result.shape[1] == len(A), result.shape[2] == len(A),
+            all(implies(keeps_root(A, I, r), result[count(r, lambda r2: keeps_root(A, I, r2)), a, b] == chain_rooted(len(A), r, a, b))
+                for r in range(len(A)) for a in range(len(A)) for b in range(len(A))))
+    # L-CHAIN-I (cited; decided by the bounded harness): those orientations are the interventional class of the chain
+    hint(implies(result.shape[0] == count(len(A), lambda r: keeps_root(A, I, r)), enumerates_imec(result, A, I)), at='return')
     ensures(enumerates_imec(result, A, I))
     fresh(result)
+
+
+@invariant("sempler.utils.chain_graph_IMEC", loop=1)
+def _cgi(IMEC, A, I, p):
+    declare(IMEC=ListOf(Arr2))
+    holds(len(IMEC) == count(_k1, lambda r: keeps_root(A, old(I), r)),
+          all(len(IMEC[m].shape) == 2 and IMEC[m].shape[0] == p and IMEC[m].shape[1] == p for m in range(len(IMEC))),
+          all(implies(keeps_root(A, old(I), r), IMEC[count(r, lambda r2: keeps_root(A, old(I), r2))][a, b] == chain_rooted(p, r, a, b))
+              for r in range(_k1) for a in range(p) for b in range(p)))
 
 
 @contract("sempler.utils.mec", cases={'check_chain': [True, False]})
